@@ -150,7 +150,12 @@ class Recorder(object):
             raise
         except Exception as e:                               # noqa
             tb = traceback.format_exc()
-            if sut_frames(e.__traceback__):
+            # (the exception itself, or the one it was raised from, comes out of the code under test)
+            chain, x_ = [], e
+            while x_ is not None and len(chain) < 6:
+                chain.append(x_)
+                x_ = x_.__cause__ or x_.__context__
+            if any(sut_frames(x_.__traceback__) for x_ in chain):
                 msg = 'code under test raised %s: %s' % (type(e).__name__, e)
                 self.failure(case, msg + '\n' + tb)
                 raise CaseFailed(msg)
